@@ -85,6 +85,15 @@ func sumWL(x *mon.Ctx) {
 			c.Eq("New().Write(m).Sum(prefix)", out, append([]byte{1, 2, 3}, want[:]...))
 		}
 		c.CheckGuards("sm3.Sum", g)
+		// misaligned start (Hi/Lo starts are 16-byte aligned for multiples of 16): an aligned vector load on the
+		// caller's memory would fault here
+		saved := append([]byte{}, m...)
+		mis := g.Off(n, 1+(n+kind)%31)
+		copy(mis, saved)
+		if c.Call("sm3.Sum(misaligned)", func() { got = sm3.Sum(mis) }) {
+			c.Eq("sm3.Sum(misaligned input)", got[:], want[:])
+		}
+		c.CheckGuards("sm3.Sum(misaligned)", g)
 	}
 	for n := 0; n <= maxLen; n++ {
 		for v := 0; v < x.Scale(2, 6); v++ {
@@ -345,6 +354,16 @@ func kdfWL(x *mon.Ctx) {
 			}
 			c.CheckGuards(ent.name, g)
 		}
+		// misaligned z
+		zs := append([]byte{}, z...)
+		zm := g.Off(zl, 1+(zl+kl)%31)
+		copy(zm, zs)
+		var gm []byte
+		if c.Call("sm3.Kdf(misaligned z)", func() { gm = sm3.Kdf(zm, kl) }) {
+			c.Eq("sm3.Kdf(misaligned z)", gm, want)
+		}
+		c.CheckGuards("sm3.Kdf(misaligned)", g)
+		z = zm
 		// prefix law against a longer request on the fast entry point
 		var longer []byte
 		if c.Call("sm3.Kdf longer", func() { longer = sm3.Kdf(z, kl+c.R.Range(1, 200)) }) {
